@@ -19,6 +19,7 @@ type executor struct {
 	cl    *clientExec
 	keyBuf []byte
 	dialCfg *stun.DialConfig
+	dst   getterDst
 	ext  map[string]func(*executor, []string) (string, bool)
 }
 
@@ -147,6 +148,9 @@ func (e *executor) run(line string) (res string) {
 		return ""
 	}
 	if toks[0] == "#" {
+		if len(toks) > 1 && toks[1] == "case" { // every case starts with fresh getter destinations (replays are self-contained)
+			e.dst = getterDst{}
+		}
 		return "#"
 	}
 	defer func() {
